@@ -389,7 +389,9 @@ def finish(prop, tier, seed, plan, results, known_hits, t0, exit_code, notes, wd
             'callees_replaced_by_contract': [x[:200] for x in r.replaced],
             'callees_inlined': len(r.inlined),
             'obligations': e.counts(), 'solver': e.solver, 'solver_s': round(e.solver_s, 2),
-            'unwind': r.job.unwind, 'canary': e.canary, 'note': r.job.note or None,
+            'unwind': r.job.unwind, 'unwindset': [list(u) for u in getattr(r.job, 'unwindset', [])] or None,
+            'enforcement': 'harness assume(requires) / assert(ensures), no goto-instrument step: frame NOT checked' if getattr(r.job, 'plain', False) else 'goto-instrument --dfcc (requires assumed, ensures + assigns frame asserted)',
+            'canary': e.canary, 'note': r.job.note or None,
             'abstracted': [n for n, f in (('machine multiplication as one uninterpreted function per width', r.job.abstract_mul), ('machine division as uninterpreted functions', r.job.abstract_div), ('floating-point division/multiplication as uninterpreted functions', r.job.abstract_fp)) if f] or None,
             'obligation_classes_left_to_companion_job': list(r.job.ignore_classes) or None,
         })
